@@ -22,17 +22,7 @@ def site_lines():
     import gen
     import gen_policy
     mod = gen.parse('oslo_policy/policy.py')
-    labels = set(gen_policy.reload_write_sites(mod))
-    enf = gen.find_class(mod, 'Enforcer')
-    out = {}
-    for fn in enf.body:
-        if isinstance(fn, ast.FunctionDef) and fn.name in gen_policy.RELOAD_FUNCS:
-            for n in ast.walk(fn):
-                if isinstance(n, (ast.Assign, ast.AugAssign, ast.Expr)):
-                    lab = '%s: %s' % (fn.name, ast.unparse(n).splitlines()[0])
-                    if lab in labels:
-                        out[(fn.name, n.lineno)] = lab
-    return out
+    return {(fn.name, n.lineno): lab for fn, n, lab in gen_policy.reload_site_nodes(mod)}
 
 
 SCENARIOS = ['main-edit-with-dir-override', 'dir-edit', 'permissive-default-rule', 'deprecated-defaults']
